@@ -153,7 +153,12 @@ impl<'a, F: Float> BallTreeInner<'a, F> {
         // The distance to a sphere is the distance to its edge, so the distance between a point
         // and a sphere will always be less than the distance between the point and anything inside
         // the sphere
-        let border_dist = dist_fn.distance(p, center.reborrow()) - *radius;
+        // Both terms are rounded (and so are the centre and the square taken below): take a few ulps of
+        // them off, so that the result stays a lower bound of the distance to every point of the sphere
+        // and a point just inside a query radius is not pruned together with its sphere
+        let center_dist = dist_fn.distance(p, center.reborrow());
+        let slack = (center_dist + *radius) * F::epsilon() * F::cast(8.0);
+        let border_dist = center_dist - *radius - slack;
         dist_fn.dist_to_rdist(border_dist.max(F::zero()))
     }
 }
